@@ -55,7 +55,8 @@ def valgrind_reports(err, tool):
 
 
 def w_tsan(exe, T, iters, seed, perturb):
-    env = build.san_env({"TSAN_OPTIONS": "halt_on_error=0:exitcode=66:report_signal_unsafe=0:history_size=4"})
+    env = build.san_env({"TSAN_OPTIONS": "halt_on_error=0:exitcode=66:report_signal_unsafe=0:history_size=4",
+                         "LC_ALL": "C.UTF-8" if seed % 2 else "C"})
     rc, out, err, wall = run_thr([exe, str(T), str(iters), str(seed), str(perturb)], env, 600)
     return {"tool": "tsan", "T": T, "seed": seed, "rc": rc, "out": out, "reports": tsan_reports(err) if err != "timeout" else [],
             "err": err[-2000:], "wall": wall}
